@@ -248,22 +248,44 @@ def check_returned(chk, fi, res, module: str) -> None:
 # tertiary.torsion_angle: the wrapper hands the coordinates of its four atoms to the torsion function in order
 # ---------------------------------------------------------------------------------------------------------------------
 def check_wrapper(chk, ta) -> bool:
-    """True when the rule was decided by evaluation (ok or violation); False: not evaluable, the caller reads the pinned form."""
+    """True when the rule was decided by evaluation (ok or violation); False: not evaluable, the caller reads the pinned form.
+    The wrapper is evaluated for atoms in general position and for placements that a rigid motion can produce (one atom exactly at
+    the origin, atoms in a coordinate plane): the value is the torsion function's value of the four coordinates in every case."""
     repo = chk.repo
     params = [a.arg for a in ta.node.args.args]
     if len(params) != 4:
         return False
-    env: Dict[str, Any] = {p: Stub(f"atom {i + 1}", name=f"X{i + 1}", coordinates=Stub(f"xyz {i + 1}", tag=f"atom {i + 1}")) for i, p in enumerate(params)}
-    env.update({"calculate_torsion_angle_coords": _tor_stub, "np": _np_stub(), "numpy": _np_stub()})
+    general = [(1.5, 2.5, 3.5), (2.5, 1.0, 4.0), (3.0, 3.5, 1.5), (4.5, 2.0, 2.5)]
+    placements: List[Tuple[str, List[Tuple[float, float, float]]]] = [("atoms in general position", general)]
+    for k in range(4):
+        placements.append((f"atom {k + 1} exactly at the origin (0, 0, 0)", [(0.0, 0.0, 0.0) if i == k else p for i, p in enumerate(general)]))
+    placements.append(("all four atoms in the plane z = 0", [(x, y, 0.0) for x, y, _ in general]))
+    placements.append(("an atom on a coordinate axis", [(0.0, 0.0, 2.0)] + general[1:]))
+    want = tuple(f"atom {i + 1}" for i in range(4))
+    wrong: Dict[str, str] = {}
     body = [s for s in ta.node.body if not (isinstance(s, ast.Expr) and isinstance(s.value, ast.Constant))]
     try:
-        kind, val = BlockEvalX(repo, T1, env).run(body)
+        for label, pts in placements:
+            env: Dict[str, Any] = {p: Stub(f"atom {i + 1}", name=f"X{i + 1}", coordinates=_Pt(f"atom {i + 1}", pts[i])) for i, p in enumerate(params)}
+            env.update({"calculate_torsion_angle_coords": _tor_stub, "np": _geom_np(), "numpy": _geom_np(), "math": _math_stub()})
+            kind, val = BlockEvalX(repo, T1, env).run(body)
+            if kind != "return":
+                return False
+            if isinstance(val, Tor):
+                if tuple(val.quad) != want:
+                    wrong[label] = f"the torsion of the coordinates of {list(val.quad)} instead of atoms 1, 2, 3, 4 in order"
+            elif label == placements[0][0]:
+                return False  # not even the plain case gives the torsion function's value: the pinned form decides
+            else:
+                wrong[label] = f"{val!r} instead of the value of the torsion function"
     except Exception:
         return False
-    if kind != "return" or not isinstance(val, Tor):
-        return False
-    want = tuple(f"atom {i + 1}" for i in range(4))
-    chk.expect(tuple(val.quad) == want, "torsion-wrapper", ta.where, "torsion_angle passes the coordinates of its four atoms to calculate_torsion_angle_coords in order (evaluated)", f"torsion_angle passes the coordinates of {list(val.quad)} instead of atoms 1, 2, 3, 4 in order", K(ta, "wrapper"), expected=list(want), found=list(val.quad))
+    order = [k for k in wrong if k == placements[0][0]]
+    if order or not wrong:
+        chk.expect(not wrong, "torsion-wrapper", ta.where, f"torsion_angle returns calculate_torsion_angle_coords of the coordinates of its four atoms in order, wherever the atoms sit ({len(placements)} placements evaluated: general position, an atom at the origin, atoms in a coordinate plane / on an axis)", f"torsion_angle passes {wrong.get(placements[0][0])}", K(ta, "wrapper"), expected=list(want), found=wrong)
+    else:
+        k0 = next(iter(wrong))
+        chk.violation("torsion-wrapper", ta.where, f"torsion_angle depends on where the molecule sits: with {k0} it returns {wrong[k0]}, with atoms in general position the torsion - a rigid motion (a translation that puts an atom at the origin or into a coordinate plane) changes the value, and chi / cis-trans / BPh classes inherit it", K(ta, "wrapper-placement"), expected="the torsion of the four coordinates for every placement", found=wrong)
     return True
 
 
@@ -763,6 +785,22 @@ class _Pt:
 
     def __iter__(self):
         return iter(self.xyz)
+
+    def any(self):
+        return any(c != 0 for c in self.xyz)
+
+    def all(self):
+        return all(c != 0 for c in self.xyz)
+
+    def tolist(self):
+        return list(self.xyz)
+
+    def __eq__(self, o):
+        if isinstance(o, (int, float)):
+            return _Pt(f"({self.tag} == {o})", [float(c == o) for c in self.xyz])
+        return NotImplemented
+
+    __hash__ = None
 
     def __len__(self):
         return 3
@@ -1317,12 +1355,41 @@ def check_borrowed_arrays(chk) -> None:
             if isinstance(c, ast.Call) and astq.callee_name(c) in _TORSION_FUNCS:
                 feeds |= {n.attr for a in c.args for n in ast.walk(a) if isinstance(n, ast.Attribute) and n.attr in attrs}
     # locals handed to a torsion function are filled from `.coordinates` too (lists of coordinates): every array attribute named so counts
+    # functions that produce a torsion value or table, and everything they call (by name, within the package)
+    by_name: Dict[str, List[Any]] = {}
+    for fi in repo.all_funcs():
+        by_name.setdefault(fi.qualname.split(".")[-1], []).append(fi)
+    producers = {f"{fi.module.name}:{fi.qualname}": fi for fi in repo.all_funcs() if fi.qualname.split(".")[-1] in _TORSION_FUNCS + ("torsion_angles", "chi", "chi_class", "detect_cis_trans", "calculate_inter_stem_parameters")}
+    todo = list(producers.values())
+    while todo:
+        fi = todo.pop()
+        for c in ast.walk(fi.node):
+            if isinstance(c, ast.Call):
+                nm = astq.callee_name(c)
+                for g in by_name.get(nm or "", []):
+                    key = f"{g.module.name}:{g.qualname}"
+                    if key not in producers and g.module.name == fi.module.name:
+                        producers[key] = g
+                        todo.append(g)
     k = 0
     for fi, node, name, src, attr, op in found:
         in_torsion = (fi.module.name, fi.qualname) in torsion_homes
-        if not (attr in feeds or (attr == "parameter" and in_torsion)):
+        in_producer = f"{fi.module.name}:{fi.qualname}" in producers
+        if not (attr in feeds or (attr == "parameter" and in_torsion) or (attr in ("parameter", "own-result") and in_producer)):
             continue
         k += 1
+        if attr in ("parameter", "own-result") and in_producer and not in_torsion:
+            chk.violation(
+                rule,
+                fi.site(node),
+                f"{op} `{name}`, which is {src}: the write goes into the data of an object this code only received (or into the table it hands out) - on the way to a torsion value / torsion table, "
+                "so the numbers the caller gets (radians, in (-pi, pi]) are changed behind its back (e.g. converted to degrees by a diagnostic), and whether that happens depends on the run-time configuration that guards this code. "
+                "Work on a copy (`.copy()`, `to_numpy(copy=True)`, `a * k` instead of `a *= k`)",
+                K(fi, f"borrowed:{attr}:{name}"),
+                expected="in-place numpy operations only on arrays created in the same function",
+                found={"written": name, "taken from": src, "kind": attr},
+            )
+            continue
         owner = "; ".join(attrs.get(attr, [])[:2]) if attr != "parameter" else "the caller's array"
         chk.violation(
             rule,
@@ -1335,7 +1402,7 @@ def check_borrowed_arrays(chk) -> None:
             found={"written": name, "taken from": src, "attribute": attr},
         )
     if k == 0:
-        chk.ok(rule, "package", f"{n_funcs} functions read; array attributes that feed the torsion functions: {sorted(feeds) or '-'} ({'; '.join(x for a in sorted(feeds) for x in attrs[a][:2])}); no in-place numpy operation (+=, [..] =, out=, fill/sort ...) is applied to a name that aliases one of them or an array parameter of a torsion function")
+        chk.ok(rule, "package", f"{n_funcs} functions read; array attributes that feed the torsion functions: {sorted(feeds) or '-'} ({'; '.join(x for a in sorted(feeds) for x in attrs[a][:2])}); no in-place numpy operation (+=, [..] =, out=, fill/sort ...) is applied to a name that aliases one of them or an array parameter of a torsion function; none of the {len(producers)} functions on the way to a torsion value / table writes into an array or DataFrame parameter or into an array sharing memory (to_numpy / .values) with the table it returns")
 
 
 def check_chi(chk) -> None:
